@@ -2,6 +2,7 @@
    /venv/bin/python -m tv.real_main jobs.json out.json   (PYTHONPATH=/repo:/verif)"""
 import sys
 import json
+import copy
 import warnings
 import traceback
 
@@ -24,7 +25,7 @@ def main():
         E = RealEnv(inputs=j.get('inputs'), seed=j.get('seed'))
         r = {'id': j['id'], 'exc': None}
         try:
-            lib.SCEN[j['scen']](E, j['s'])
+            lib.SCEN[j['scen']](E, copy.deepcopy(j['s']))
         except AssumeFailed:
             r['precondition_failed'] = True
         except Exception as e:
